@@ -71,6 +71,10 @@ def correspond(ctx):
             o = {'show_progress': False}
             if rng.random() < 0.5:
                 o['feastol'] = rng.choice([1e-5, 1e-7, 1e-8]); o['abstol'] = rng.choice([1e-5, 1e-7, 1e-9]); o['reltol'] = rng.choice([1e-4, 1e-6, 1e-8])
+                if rng.random() < 0.35:
+                    # a loose relative tolerance with a tight absolute one: the run stops on the relative criterion alone, far from the optimum,
+                    # where the three documented forms of the relative gap differ visibly
+                    o['abstol'] = 1e-12; o['reltol'] = rng.choice([0.5, 0.2, 0.1])
             c2, G2, h2, A2, b2, P2 = PR.to_cvx(cvxopt, pr, sparse=sp, junk=(random.Random(rng.random()) if junk else None))
             args = (P2, c2, None, None, None, A2, b2) if nocone else (P2, c2, G2, h2, dims, A2, b2)
             def run(args=args, kw=kw, o=o, junk=junk, tag=tag):
@@ -207,9 +211,17 @@ def correspond(ctx):
         pc, dc, gap = float(d['pcost']), float(d['dcost']), float(d['gap'])
         bad = []
         orel = 1e-8 if fslack == 0.0 else 1e-5
-        if not close(r['primal objective'], pc, orel, 1e-9 + fslack): bad.append(('primal objective', r['primal objective'], pc))
-        if not close(r['dual objective'], dc, 10 * orel, 1e-8 + fslack): bad.append(('dual objective', r['dual objective'], dc))
+        # the objective is quadratic in x: its floating-point evaluation carries an error of about u * |x|' |P| |x| (the residuals: u * |P| |x|)
+        bigx = max([1.0] + [abs(v) for v in mlist(r['x'])])
+        oslack = fslack * bigx
+        if not close(r['primal objective'], pc, orel, 1e-9 + oslack): bad.append(('primal objective', r['primal objective'], pc))
+        if not close(r['dual objective'], dc, 10 * orel, 1e-8 + oslack): bad.append(('dual objective', r['dual objective'], dc))
         if not close(r['gap'], gap, 1e-5, 1e-10): bad.append(('gap', r['gap'], gap))
+        # documented relative gap: gap / (-pcost) if pcost < 0, gap / dcost if dcost > 0, otherwise None
+        if abs(pc) > 1e-9 * (1 + abs(gap)) and abs(dc) > 1e-9 * (1 + abs(gap)) and desc['dims']['l'] + len(desc['dims']['q']) + len(desc['dims']['s']) > 0:
+            want = gap / (-pc) if pc < 0 else (gap / dc if dc > 0 else None)
+            got = r.get('relative gap')
+            if (want is None) != (got is None) or (want is not None and not close(got, want, 1e-4, 1e-12)): bad.append(('relative gap', got, want))
         if not close(r['primal infeasibility'], pres, 1e-3, 1e-11 + fslack): bad.append(('primal infeasibility', r['primal infeasibility'], pres))
         if not close(r['dual infeasibility'], dres, 1e-3, 1e-11 + fslack): bad.append(('dual infeasibility', r['dual infeasibility'], dres))
         if bad:
